@@ -198,3 +198,13 @@ m('benign_strict_diagonal_tuple_compare', ['C05', 'C08', 'C11'], '_base/diagonal
 m('benign_toeplitz_cast_via_asarray', ['C09', 'C05'], 'operators/toeplitz.py', '            Y_padded = Y_padded.astype(dtype)\n', '            Y_padded = jnp.asarray(Y_padded, dtype=dtype)\n')
 m('revert_block_rule_layout_check', ['C01'], '_base/blocks.py', '        if left_treedef != right_treedef:\n            raise NoReduction\n', '        if False:\n            raise NoReduction\n',
   note='revert of db9de41')
+
+# ---- lines found unexecuted by a line-coverage measurement of the quick tier, now exercised ------------------------------------
+m('stokes_roperation_same_kind_swapped', ['C20'], 'landscapes.py',
+  '            result = jax.tree.map(operation, left, self)', '            result = jax.tree.map(operation, self, left)')
+m('moveaxis_list_source_reversed', ['C13'], '_base/axes.py',
+  '            source = cast(tuple[int], tuple(source))', '            source = cast(tuple[int], tuple(reversed(source)))')
+m('diagonal_list_axes_sorted', ['C11'], '_base/diagonal.py',
+  '            axis_destination = tuple(axis_destination)\n', '            axis_destination = tuple(sorted(axis_destination))\n')
+m('blockdiag_inverse_no_square_guard', ['C06'], '_base/blocks.py',
+  '            return super().inverse()\n        return BlockDiagonalOperator', '            return self.T\n        return BlockDiagonalOperator')
